@@ -56,7 +56,7 @@ def main():
     for name in names:
         for level in [-100, -2] + list(range(-1, 18)):
             for mode in range(0, 26):
-                for wk in range(7):   # 0 none, 1 valid, 2 inverted, 3 above the kinematic range, 4 lower bound only, 5 upper bound only, 6 lower bound only above the range
+                for wk in range(8):   # 7 negative lower bound (accepted: the window is its intersection with the kinematic range); 0 none, 1 valid, 2 inverted, 3 above the kinematic range, 4 lower bound only, 5 upper bound only, 6 lower bound only above the range
                     if wk == 0:
                         w = (0, 0.0, 0.0)
                     elif wk == 1:
@@ -69,8 +69,10 @@ def main():
                         w = (1, 0.03125, -999.0)
                     elif wk == 5:
                         w = (1, -999.0, 0.75)
-                    else:
+                    elif wk == 6:
                         w = (1, 5.0, -999.0)
+                    else:
+                        w = (1, -0.5, 0.25 if name not in table else max(0.03125, int(max(0.05, genmon.e0_of(table, name, max(0, min(level, max(table[name]["levels"]))), mode if 1 <= mode <= 20 else 1)) * 32) / 64.0))
                     acc, why = model(table, name, level, mode, w[0], w[1], w[2], True)
                     if acc is None:
                         unspecified += 1
@@ -144,7 +146,7 @@ def main():
     chk.coverage.update({
         "evaluations": seen,
         "distinct_nontrivial": len(cellstate),
-        "rule": "grid = (51 isotopes + 4 unknown/mis-cased names) x levels -100, -2, -1..17 x modes 0..25 x {no window, valid, inverted, lower-bound-only, upper-bound-only, above the kinematic "
+        "rule": "grid = (51 isotopes + 4 unknown/mis-cased names) x levels -100, -2, -1..17 x modes 0..25 x {no window, valid, inverted, lower-bound-only, upper-bound-only, negative lower bound, above the kinematic "
                 "range}; each cell is configured through decay0_generator and initialised; verdict compared with an executable model of the stated rules "
                 "(tables parsed from the reference source; gA datasets synthesised); accepted cells shoot 20 events through the C04 monitor, rejected "
                 "cells must not shoot; every request is also put to one long-lived generator object per process (reset between requests) and must get the same verdict; distinct = distinct (mode, window kind, model verdict, generator verdict) classes observed",
